@@ -87,7 +87,9 @@ def _gen_ops(r, scen, mc, nshared, n_ops):
             op["b"] = libx.structured_scalar(r, n, hi_mult=2) or 1
         if name in ("sign_det", "sign_k", "sign_ent", "verify",
                     "verify_digest"):
-            op["msg"] = core.hx(r.randbytes(r.choice([1, 4, 9])))
+            # a small pool of messages: threads often do the *same* work
+            op["msg"] = r.choice(["00", "a5a5", core.hx(r.randbytes(
+                r.choice([1, 4, 9])))])
         if name == "sign_k":
             op["k"] = libx.key_scalar(r, n)
         if name == "sign_ent":
@@ -144,7 +146,8 @@ def generate(run_seed, tier):
             for op in th:
                 if ro.random() < 0.8:
                     op["s"] = ti % len(shared)
-    gran = r.choice(["attr", "attr", "line", "line", "attr+line"])
+    gran = r.choice(["attr", "attr", "line", "line", "attr+line",
+                     "line_all"])
     rs = core.rng(run_seed, "sched")
     kind = rs.choice(["random", "pct", "park", "park", "park"])
     cfg = dict(kind=kind, seed=rs.getrandbits(48))
@@ -176,6 +179,8 @@ def _install():
         core.lib()
         from ecdsa import ellipticcurve, keys, ecdsa as lecdsa
         sched.install(line_modules=[ellipticcurve, keys, lecdsa])
+        from ecdsa import numbertheory, util, rfc6979, der
+        sched.install_secondary([numbertheory, util, rfc6979, der])
         for cls in (ellipticcurve.PointJacobi, lecdsa.Public_key,
                     lecdsa.Private_key, keys.VerifyingKey, keys.SigningKey):
             sched.wrap_attr_class(cls)
@@ -417,6 +422,10 @@ def execute(prog):
         kinds.add("attr")
     if "line" in gran:
         kinds.add("line")
+    if gran == "line_all":
+        # also every line of the helper modules (numbertheory, util,
+        # rfc6979, der): module-level state there is shared by everything
+        kinds.add("line2")
     nth = len(prog["threads"])
     if nth == 0 or not prog["shared"]:
         return out
